@@ -306,7 +306,7 @@ class EventSeries(Cached):
         if threshold_values is not None:
             threshold_values = np.array(threshold_values)
             if threshold_values.shape == (data.shape[1],):
-                if not np.all([isinstance(i, (float, int))
+                if not np.all([isinstance(i, (float, int, np.integer))
                                for i in threshold_values]):
                     raise IOError("'threshold_values' must be either float/int"
                                   " or 1D array-like object of float/int for "
